@@ -155,6 +155,15 @@ def verdict(sd, b):
 
 
 def main():
+    try:
+        main_()
+    except BaseException:
+        import traceback
+        json.dump({'stats': {}, 'bad': [], 'built': [], 'failed': [], 'ratebad': [],
+                   'crash': traceback.format_exc()[-1500:]}, open(sys.argv[2], 'w'))
+
+
+def main_():
     req = json.load(open(sys.argv[1]))
     kinds = req.get('kinds', ['nan'])
     shard, nshards = req.get('shard', 0), req.get('nshards', 1)
